@@ -240,8 +240,15 @@ func (r *Rng) c6GenLazy(id int, k int) *C6Case {
 func (c *C6Case) coqLazy(id int, ncpu int, switched map[int]bool, obs []int64, ok bool) string {
 	var st []string
 	for _, s := range c.Stages {
-		k := map[string]string{"map": "LMap", "accept": "LAccept", "number": "LNumber"}[s.Kind]
-		st = append(st, fmt.Sprintf("(%s %s)", k, s.coqSP(switched[s.ID], c.Seed+int64(s.ID))))
+		sp := s.coqSP(switched[s.ID], c.Seed+int64(s.ID))
+		switch s.Kind {
+		case "map":
+			st = append(st, "(LMap "+sp+")")
+		case "accept":
+			st = append(st, "(LAccept "+sp+")")
+		default: // number: a closure stage on the calling goroutine, list.go's Number as a step function
+			st = append(st, "(LScan [0%Z] (number_step "+sp+"))")
+		}
 	}
 	cons := ""
 	switch c.Term.Kind {
